@@ -390,6 +390,7 @@ void end_run(RunStats &out) {
     out.allocs = alloc_seq;
 }
 
+void peek_stats(RunStats &out) { out = g.st; out.allocs = alloc_seq; }
 void arm_alloc(bool on) { alloc_armed = on; }
 long alloc_count() { return alloc_seq; }
 void reset_alloc_count() { alloc_seq = 0; }
